@@ -68,5 +68,5 @@ Selection == [b \in Ids, ms \in QSets |-> SelectIds(Content[b], ms)]
 C10_AnswerIsSelectionOverLoadedBlocks ==
     last # <<>> => last[3] = UNION { Selection[b, last[1]] : b \in last[2] }
 LoadedFollowsBucketAtSync == loaded \subseteq bucket \cup gone
-View == <<bucket, gone, loaded, cache, last>>     \* the step counter only bounds the exploration
+View == <<bucket, gone, loaded, cache, last>>     \* (not used: with breadth-first workers racing, a VIEW that hides the bound makes the explored set depend on timing)
 =============================================================================
